@@ -14,7 +14,7 @@ RULE = ('workchains whose step registers n<=3 (thorough 4) awaitables (plain fut
         'outcome mixes value/exception/cancel (futures), finish/fail/kill (children); distinct by (program, plan); non-trivial when the barrier '
         'assertion was evaluated or a failure was delivered')
 ASSUMPTIONS = ['pause/play interleavings are C06', 'children are processes that wait for the harness (so completion is controlled)']
-REQUIRED = ['barrier_checks', 'ctx_checks', 'failures/exc', 'failures/killed', 'failures/cancel', 'kinds/fut', 'kinds/child', 'how/ret', 'how/call']
+REQUIRED = ['barrier_checks', 'ctx_checks', 'failures/exc', 'failures/killed', 'failures/cancel', 'kinds/fut', 'kinds/child', 'kinds/oldchild', 'how/ret', 'how/call', 'terminated_before_registration']
 BOUNDS = {'quick': 'n<=3 awaitables, all completion orders, placements sampled on a grid', 'thorough': 'n<=4, all placements'}
 
 
@@ -37,6 +37,12 @@ def _programs(tier):
                                    {'reg': [['k', 2, 'fut', 'call']], 'ret': None}, {'reg': [], 'ret': None}]}
     progs['reassign_child'] = {'steps': [{'reg': [['k', 0, 'child', 'ret']], 'ret': None},
                                          {'reg': [['k', 1, 'fut', 'ret'], ['m', 2, 'child', 'call']], 'ret': None}, {'reg': [], 'ret': 3}]}
+    # a child launched by an earlier step and handed to the context only later (it may already have finished / failed / been killed)
+    for how in ('ret', 'call'):
+        progs['oldchild_' + how] = {'steps': [{'pre': [1], 'reg': [['a', 0, 'fut', 'ret']], 'ret': None},
+                                              {'reg': [['b', 1, 'oldchild', how]], 'ret': None}, {'reg': [], 'ret': 'end'}]}
+    progs['oldchild_two'] = {'steps': [{'pre': [1, 2], 'reg': [['a', 0, 'fut', 'call']], 'ret': None},
+                                       {'reg': [['b', 1, 'oldchild', 'ret'], ['c', 2, 'oldchild', 'call']], 'ret': None}, {'reg': [], 'ret': None}]}
     progs['samekey'] = {'steps': [{'reg': [['k', 0, 'fut', 'call'], ['k', 1, 'fut', 'ret']], 'ret': None}, {'reg': [], 'ret': None}]}
     return progs
 
@@ -52,7 +58,7 @@ def gen_cases(tier, seed):
     cap = 150 if tier == 'quick' else 1200
     for name, prog in sorted(_programs(tier).items()):
         cases = []
-        items = [(idx, kind) for st in prog['steps'] for _k, idx, kind, _h in st['reg']]
+        items = [(idx, 'child' if kind == 'oldchild' else kind) for st in prog['steps'] for _k, idx, kind, _h in st['reg']]
         ref = wcprog.run_case({'program': prog, 'plan': [], 'drain': True})
         nslots = ref['slots'] + 1
         poscache = {}
@@ -95,7 +101,7 @@ def gen_cases(tier, seed):
 def run_case(case):
     rec = wcprog.run_case(case)
     viol = judges.judge_c10(rec)
-    obs = {'barrier_checks': 0, 'ctx_checks': 0, 'failures': {}, 'kinds': {}, 'how': {}, 'early_completions': 0, 'final': {}}
+    obs = {'barrier_checks': 0, 'ctx_checks': 0, 'failures': {}, 'kinds': {}, 'how': {}, 'early_completions': 0, 'final': {}, 'terminated_before_registration': 0}
     steps = case['program']['steps']
     for e in rec['events']:
         if e[0] == 'trace' and e[1] == 'enter' and e[2] > 0:
@@ -111,6 +117,20 @@ def run_case(case):
     for a in rec['acts']:
         if a['kind'] == 'complete' and a['state_before'] != 'waiting' and a['ret'] == ['value', None]:
             obs['early_completions'] += 1
+    # an "old" child that had already terminated when the step that registers it was entered
+    for k, st in enumerate(steps):
+        for _key, idx, kind, _how in st['reg']:
+            if kind == 'oldchild':
+                for e in rec['events']:
+                    if e[0] == 'trace' and e[1] == 'enter' and e[2] == k + 1 and e[6].get(str(idx)):
+                        pass
+                child = rec['extra']['children'].get(str(idx))
+                order = rec['extra'].get('done_order', [])
+                enter_k = next((i for i, e in enumerate(rec['events']) if e[0] == 'trace' and e[1] == 'enter' and e[2] == k), None)
+                if child and enter_k is not None and child['state'] in ('finished', 'excepted', 'killed'):
+                    acts_before = [a for a in rec['acts'] if a['kind'] == 'child' and a['arg'][0] == idx]
+                    if acts_before and acts_before[0]['nwait'] <= k:
+                        obs['terminated_before_registration'] = obs.get('terminated_before_registration', 0) + 1
     if rec['final']:
         obs['final'][rec['final']['state']] = 1
     res = {'viol': viol, 'obs': obs, 'inconclusive': rec['inconclusive'], 'key': [case['name'], case['plan']],
